@@ -4,6 +4,7 @@ from __future__ import annotations
 import collections
 
 import core
+import propbase
 import simnet
 
 ID = "C03"
@@ -11,8 +12,11 @@ MODULE = "HttpcoreModel.Props.C03"
 THEOREMS = [f"Httpcore.C03.{n}" for n in (
     "reject_writes_nothing", "head_written_first", "host_first", "others_in_order", "cl_body_exact", "cl_mismatch_detected",
     "chunked_roundtrip", "empty_chunk_writes_nothing", "defaults_only_if_missing", "h2_mapping", "h2_needs_host",
-    "h2_validation_on", "h2_illegal_rejected", "h2_legal_handed", "h2_refuses_te", "h2_refuses_empty_path", "h2_refuses_custom_pseudo")]
+    "h2_validation_on", "h2_illegal_rejected", "h2_legal_handed", "h2_refuses_te", "h2_refuses_empty_path", "h2_refuses_custom_pseudo")] + [
+    f"Httpcore.BackendProps.{n}" for n in ("write_nothing_lost_or_reordered", "write_complete", "pieces_bounded", "source_write_loop")]
 TRUSTED = [
+    "the sync back end's send loop (Backend.writeLoop): loop shape recognised from _backends/sync.py (Tie A) and lock-stepped on a scripted socket; "
+    "the async back ends hand the whole buffer to anyio's send / trio's send_all (trusted)",
     "Lean 4.33 kernel; axioms per theorem under coverage.theorems",
     "hand-written model of h11 0.14's request validation / writers and of http2.py's header mapping (H1Write), tied by this run's differential",
     "HTTP/2 framing and HPACK: the real h2 library decodes what the client wrote (independent decoder, trusted)",
@@ -520,6 +524,15 @@ def run(ctx, driver):
     evals += rr.evals
     distinct |= rr.distinct
     dist.update(rr.dist)
+    # the sync back end's partial-send loop against Backend.writeLoop
+    import backendb
+    rb = propbase.Rec(ctx, ID)
+    backendb.run(rb, driver, rng, 400 if ctx.quick else 20000)
+    if rb.disagreements:
+        ctx.broken.append({"kind": "correspondence", "family": "C03 back-end write loop", "first": rb.disagreements[:3], "count_capped": len(rb.disagreements)})
+    evals += rb.evals
+    distinct |= rb.distinct
+    dist.update(rb.dist)
     return {
         "evaluations": evals, "distinct_nontrivial": len(distinct),
         "rule": "requests from gen_request (method, origin-form / target extension / absolute-form / '*', 0-5 headers with case variants, "
